@@ -222,6 +222,8 @@ def _get_subcircuits(
     logger.debug(f"Process: {len(good_cuts)} cuts")
 
     outputs_set: set[Label] = set(circuit.outputs)
+    # gates which are not reachable from the outputs are never replaced
+    live_nodes: set[Label] = {node.label for node in circuit.dfs()}
     inputs_tt: dict[int, list[int]] = {
         x: _generate_inputs_tt(x) for x in range(cut_size + 1)
     }
@@ -231,7 +233,8 @@ def _get_subcircuits(
         inputs: set[Label] = set(cut)
         inputs_lst: list[Label] = list(inputs)
         outputs: list[Label] = list()
-        nodes: list[Label] = sorted(list(cut_nodes[cut]), key=lambda x: node_pos[x])
+        cone: set[Label] = cut_nodes[cut] & live_nodes
+        nodes: list[Label] = sorted(list(cone), key=lambda x: node_pos[x])
 
         circuit_tt: tp.DefaultDict[Label, int] = collections.defaultdict(int)
         circuit_size: int = 0
@@ -254,7 +257,7 @@ def _get_subcircuits(
             is_output: bool = node in outputs_set
             if not is_output:
                 for user in users:
-                    if user not in cut_nodes[cut]:
+                    if user not in cone:
                         is_output = True
                         break
             if is_output:
@@ -293,7 +296,9 @@ def _eval_dont_cares(
                 assignment[inputs[idx]] = False
                 idx -= 1
             assignment[inputs[idx]] = True
-        for gate, value in circuit.evaluate_circuit(assignment).items():
+        # all gates are evaluated, since a cut may have a leaf which is not
+        # reachable from the outputs of the circuit
+        for gate, value in circuit.evaluate_full_circuit(assignment).items():
             if value != Undefined:
                 truth_table[gate].append(int(tp.cast(bool, value)))
 
